@@ -476,6 +476,8 @@ def specStmt (v : String) (sd : SD) (st : SSt) (s : Stmt) (res : String) : Strin
         (if finiteOnly && isV3 && sh.bounded then fail s!"{op} availability" res "bounded value must assert to FiniteSequence" else "ok", st)
       else if finiteOnly && isV3 && !sh.bounded then (fail s!"{op} availability" res "na", st)
       else if res.startsWith "RERUN-MISMATCH" then (fail "re-running a returned iterator" res "the same positions again", st)
+      else if res.startsWith "ARG-MODIFIED-DURING-CALL" then
+        (fail "the caller's pattern slice as seen by the digit source while the search was in progress" res "unmodified (the library never writes to its arguments, not even temporarily)", st)
       else if res.startsWith "panic" then (fail op res "normal return", st)
       else
         let fin := winFinite sd sh.win
